@@ -142,7 +142,7 @@ __CPROVER_ensures(!g_exc ==> (g_entry_next == nr_regions && g_seq == 3))        
 
 /* direct_event_start_helper(self)(evt, fsm): 4 variants selected at compile time by the kind of entering event
    -DENTRY_KIND=0 plain, 1 direct (explicit entry), 2 fork, 3 entry pseudo state */
-void fork_foreach(fsm_t* self, event_t evt)         /* mpl::for_each<active_state>(fork_helper(self,evt)) : its own unit below */
+void fork_foreach(fsm_t* self, event_t evt)         /* mpl::for_each<active_state>(fork_helper(self,evt)) : proved in its own unit <be>.fork_helper.foreach (foreach_back.spec.h, same ensures) */
 __CPROVER_requires(g_seq == 2 && g_forked == 0)
 __CPROVER_assigns(g_forked, __CPROVER_object_whole(self->m_states))
 __CPROVER_ensures(g_forked == 1)
@@ -207,12 +207,12 @@ __CPROVER_ensures(!g_exc ==> (g_cleared == !g_keep_deferred))                   
 
 /* ---- start() / start(evt) / stop() (root machine) ---- */
 extern const int g_init_ids[NR_CAP];     /* ids of Derived::initial_state, region order (compile time) */
-void init_states_foreach(fsm_t* self)    /* mpl::for_each<seq_initial_states>(init_states(m_states)) [A: assigns the initial state ids in region order] */
+void init_states_foreach(fsm_t* self)    /* mpl::for_each<seq_initial_states>(init_states(m_states)) proved in its own unit <be>.init_states.foreach (foreach_back.spec.h, same ensures) */
 __CPROVER_requires(g_seq == 0)
 __CPROVER_assigns(g_seq, __CPROVER_object_upto(self->m_states, sizeof(self->m_states)))
 __CPROVER_ensures(g_seq == 1 && self->m_states[g_k] == g_init_ids[g_k])
 ;
-void call_init_foreach(fsm_t* self, event_t evt)   /* mpl::for_each<initial_states>(call_init<Event>(evt,this)) : entry of every region's initial state, region order */
+void call_init_foreach(fsm_t* self, event_t evt)   /* mpl::for_each<initial_states>(call_init<Event>(evt,this)) : entry of every region's initial state, region order; proved in <be>.call_init.foreach (foreach_back.spec.h) */
 __CPROVER_requires(g_seq == 2 && g_entry_next == 0 && !g_exc)                     /*@ob C02.substates-entered-after-the-machines-own-entry */
 __CPROVER_requires(g_no_msg_queue || self->m_event_processing)                   /*@ob C04.entry-behaviours-run-with-the-busy-mark-set */
 __CPROVER_requires(self->m_states[g_k] == g_init_ids[g_k])                       /*@ob C03.start-enters-the-initial-configuration */
